@@ -1,8 +1,8 @@
 (* C13 -- a pulling client's copy always matches the user's current access: the property theorems.
    Nothing but statements; the proofs are in RevocationProofs.v, GrantSysProofs.v, FeedProofs.v, ClientProofs.v. *)
 From SG Require Import Base.Prelude C20.SeqIdGen C20.SeqId
-  C13.Revocation C13.Feed C13.Client C13.GrantSys
-  C13.RevocationProofs C13.GrantSysProofs C13.FeedProofs C13.ClientProofs.
+  C13.Revocation C13.Feed C13.Client C13.GrantSys C13.Sys
+  C13.RevocationProofs C13.GrantSysProofs C13.FeedProofs C13.FeedComplete C13.ClientProofs.
 Open Scope N_scope.
 
 (* ---- grant history: on invalidate + rebuild every lost grant is appended with [granted_at, invalidation_seq) ---- *)
@@ -78,6 +78,68 @@ Proof.
 Qed.
 Print Assumptions C13_revocation_row_origin.
 
+(* ---- what one request delivers (for every snapshot with consistent feeds, every resume position) ---- *)
+(* the merge loses nothing: every row of every feed that is not later than the cached sequence is represented, with
+   its document, revision and flags, in the un-limited response *)
+Theorem C13_pull_complete :
+  forall (snap : snapshot) (since : seqid) (x : row),
+    feeds_consistent_b (feeds snap since) = true ->
+    In x (concat (feeds snap since)) ->
+    (w_seq x <=? s_cached snap) || (w_revoked x && (w_trig x <=? s_cached snap)) = true ->
+    exists r, In r (pull snap since 0)
+              /\ w_trig r = w_trig x /\ w_seq r = w_seq x /\ w_doc r = w_doc x /\ w_rev r = w_rev x
+              /\ w_deleted r = w_deleted x /\ w_revoked r = w_revoked x /\ w_principal r = w_principal x
+              /\ (w_removed x = [] -> w_allremoved r = false).
+Proof. exact pull_complete. Qed.
+Print Assumptions C13_pull_complete.
+
+(* documents that became visible through a new grant are back-filled: for a channel granted after the client's
+   position EVERY live entry of the channel is delivered as a storing row *)
+Theorem C13_new_grant_backfills_everything :
+  forall (snap : snapshot) (since : seqid) (c added : N) (e : logentry),
+    feeds_consistent_b (feeds snap since) = true ->
+    TriggeredBy since = 0 -> LowSeq since = 0 ->
+    In (c, added) (inherited (s_user snap) (s_roles snap)) ->
+    1 < added -> Seq since < added -> added <= s_cached snap ->
+    In e (log_of c (s_logs snap)) -> le_removed e = false -> le_deleted e = false ->
+    0 < le_seq e -> le_seq e <= s_cached snap ->
+    exists r, In r (pull snap since 0) /\ w_seq r = le_seq e /\ w_doc r = le_doc e /\ w_rev r = le_rev e
+              /\ w_principal r = false /\ purges r = false.
+Proof. exact new_grant_backfills_everything. Qed.
+Print Assumptions C13_new_grant_backfills_everything.
+
+(* in general: every live entry of an accessible channel after the channel's resume position is delivered *)
+Theorem C13_grant_backfills :
+  forall (snap : snapshot) (since : seqid) (c added : N) (cs : N * N) (e : logentry),
+    feeds_consistent_b (feeds snap since) = true ->
+    In (c, added) (inherited (s_user snap) (s_roles snap)) ->
+    chan_since since (s_cached snap) added = Some cs ->
+    In e (log_of c (s_logs snap)) -> le_removed e = false -> le_deleted e = false ->
+    snd cs < le_seq e -> le_seq e <= s_cached snap ->
+    exists r, In r (pull snap since 0) /\ w_seq r = le_seq e /\ w_doc r = le_doc e /\ w_rev r = le_rev e
+              /\ w_principal r = false /\ purges r = false.
+Proof. exact grant_backfills. Qed.
+Print Assumptions C13_grant_backfills.
+
+(* loss of a channel is announced: every entry of a revoked channel that the client may hold (written at or before
+   its position, or in the channel during a period the user had it -- wasDocInChannelPriorToRevocation) and that the
+   user cannot see through another channel is delivered as a revocation row, which purges *)
+Theorem C13_revocation_delivers :
+  forall (snap : snapshot) (since : seqid) (c at_ : N) (e : logentry),
+    feeds_consistent_b (feeds snap since) = true ->
+    In (c, at_) (revoked_channels (s_user snap) (s_roles snap) (Seq since) 0 (TriggeredBy since)) ->
+    at_ <= s_cached snap ->
+    In e (log_of c (s_logs snap)) ->
+    snd (revoke_params since at_) < le_seq e ->
+    (le_seq e <= Seq since \/
+     exists d, find_doc (le_doc e) (s_docs snap) = Some d /\
+               was_in_channel (d_hist d) (granted_periods (s_user snap) (s_roles snap) c) c (fst (revoke_params since at_)) = true) ->
+    user_can_see snap (le_doc e) = false ->
+    exists r, In r (pull snap since 0) /\ w_doc r = le_doc e /\ w_seq r = le_seq e /\ w_trig r = at_
+              /\ w_revoked r = true /\ purges r = true.
+Proof. exact revocation_delivers. Qed.
+Print Assumptions C13_revocation_delivers.
+
 (* ---- the client ---- *)
 Theorem C13_client_last_row_wins :
   forall (c : client) (rows : list row) (d : N),
@@ -95,6 +157,17 @@ Theorem C13_client_apply_idempotent :
     /\ (asc c -> apply_rows (apply_rows c rows) rows = apply_rows c rows).
 Proof. intros c rows; split; [intros d; apply client_apply_idempotent | apply client_apply_idempotent_eq]. Qed.
 Print Assumptions C13_client_apply_idempotent.
+
+(* ---- the end-to-end statement ----
+   "after every request that caught up the client's documents are exactly the documents whose current revision the
+   user can see", over all histories of the whole-system model Sys.v (documents, admin grants to the user and to
+   roles, role deletion / re-creation, pulls with limits).  It is NOT a theorem: the faithful model of the unchanged
+   code refutes it (C13_Refuted.v: C13_client_matches_visible_refuted, two independent witnesses, both reproduced on
+   the real database).  PARTIAL: what is proved instead are the request-level clauses above (back-fill, revocation
+   delivery, no revocation for a visible document, nothing lost or invented by the merge), the grant-history theorems
+   and the client theorems; the composition over several requests -- where the two defects live -- is checked on the
+   real database by the monitor client_matches_visible. *)
+Definition C13_client_matches_visible_full_statement : Prop := client_matches_visible_full_statement.
 
 (* ---- non-vacuity: a concrete loaded state in which a channel held through a role and directly is lost ---- *)
 Example C13_nonvacuous :
